@@ -61,6 +61,7 @@ impl<'a> SegRunner<'a> {
         let hid = out.next_hid; out.next_hid += 1;
         let mut r = SegRunner { out, suite: suite.into(), lo, hi, real: None, vals: vec![], all_vals: vec![], last_q: None, ops: vec![], hid, last_t: i64::MIN, dead: false };
         r.ops.push(format!("new {} {}", lo, hi));
+        if r.out.flush { eprintln!("@new {} seg 0 0", r.suite); eprintln!("@op new {} {}", lo, hi); }
         let real = catch_unwind(|| SegC::new(lo, hi));
         let (o, st) = match real {
             Ok(Some(c)) => { let st = c.state().unwrap_or_else(|e| format!("ABSFAIL {}", e)); r.real = Some(c); ("some".to_string(), st) }
@@ -121,9 +122,12 @@ impl<'a> SegRunner<'a> {
 
     pub fn step(&mut self, op: &Op) -> String {
         if self.dead || self.real.is_none() { return "DEAD".into(); }
+        crate::run::progress();
         let pre = self.real.as_ref().unwrap().state().unwrap_or_else(|e| format!("ABSFAIL {}", e));
         self.ops.push(op.text());
-        if self.out.flush { eprintln!("@ {} seg 0 0 :: {}", self.suite, self.ops.join(" ; ")); }
+        if self.out.flush {
+            eprintln!("@op {}", self.ops[self.ops.len() - 1]);
+        }
         cb_reset(None, false);
         let real = self.real.as_mut().unwrap();
         let res = catch_unwind(AssertUnwindSafe(|| real.apply(op)));
